@@ -1,4 +1,4 @@
-import PGA.Spec.SI
+import PGA.Spec.SIExt
 /-!
 # Decidable table checks for C10 and the lemmas that lift them to statements about `lookup`
 
@@ -58,11 +58,80 @@ def collisions : List (Name × Name × Name) :=
   (SI.units.map fun r => (SI.prefixes.filter fun pk => (find (pk.1 ++ r.name)).isSome).map
       fun pk => (pk.1, r.name, pk.1 ++ r.name)).flatten
 
-/-- the live database has exactly the reference's names, and the model builds the live key list -/
+/-- the model builds the live key list; every live name is a unit of the reference or a new unit consistent with
+its definition (a unit of the extended reference); every reference unit is in the live database -/
 def checkNames (cfg : Cfg) : Bool :=
   (cfg.db.map (·.1) == PGA.Gen.Units.dbNames) &&
-  PGA.Gen.Units.dbNames.all (fun n => (find n).isSome) &&
+  PGA.Gen.Units.dbNames.all (fun n => (extFind n).isSome) &&
   SI.units.all (fun r => PGA.Gen.Units.dbNames.contains r.name)
+
+/-! ## units the reference does not know (`PGA/Spec/SIExt.lean`) -/
+
+/-- every live unit the reference does not know is acceptable: no spelling of it had a meaning, and its definition
+evaluates over the reference extended by the new units before it -/
+def checkNewAccepted : Bool := liveVerdicts.all fun x => x.2.2.isAccepted
+
+/-- T1 for the new units: the package's value of every spelling is `10^k` times what the definition means -/
+def checkNewUnits (cfg : Cfg) : Bool :=
+  newUnits.all fun r => allPrefixes.all fun pk => checkResolves cfg (pk.1 ++ r.name) ((10 : Rat) ^ pk.2) r
+
+theorem checkNewUnits_sound {cfg} (h : checkNewUnits cfg = true) :
+    ∀ r ∈ newUnits, ∀ pk ∈ allPrefixes, ResolvesTo cfg (pk.1 ++ r.name) ((10 : Rat) ^ pk.2) r := by
+  intro r hr pk hpk
+  have h1 := (List.all_eq_true.mp h) r hr
+  exact checkResolves_sound ((List.all_eq_true.mp h1) pk hpk)
+
+/-- the name `nm` resolves over `cfg` to exactly the magnitude `v` and the dimension `d` -/
+def resolvesExactly (cfg : Cfg) (nm : Name) (v : Rat) (d : Dim) : Bool :=
+  match lookup cfg nm with
+  | .ok ⟨.exact q, dm⟩ => decide (q = v) && decide (dm = d)
+  | _ => false
+
+theorem resolvesExactly_sound {cfg nm v d} (h : resolvesExactly cfg nm v d = true) :
+    lookup cfg nm = .ok ⟨.exact v, d⟩ := by
+  unfold resolvesExactly at h
+  split at h
+  · next q dm heq =>
+    simp only [Bool.and_eq_true, decide_eq_true_eq] at h
+    rw [heq, h.1, h.2]
+  · exact absurd h (by simp)
+
+/-- the reference table read through the three-step lookup means what it says: every spelling `p ++ name` resolves
+to `10^k · value` with the unit's dimension, unless it is itself a unit name (`min`, `ft`), which it then is -/
+def checkRefSelf : Bool :=
+  SI.units.all fun r => allPrefixes.all fun pk =>
+    match find (pk.1 ++ r.name) with
+    | some r' => resolvesExactly (cfgOf SI.units) (pk.1 ++ r.name) r'.value r'.dim
+    | none => resolvesExactly (cfgOf SI.units) (pk.1 ++ r.name) ((10 : Rat) ^ pk.2 * r.value) r.dim
+
+theorem checkRefSelf_sound (h : checkRefSelf = true) :
+    ∀ r ∈ SI.units, ∀ pk ∈ allPrefixes,
+      (find (pk.1 ++ r.name) = none →
+        lookup (cfgOf SI.units) (pk.1 ++ r.name) = .ok ⟨.exact ((10 : Rat) ^ pk.2 * r.value), r.dim⟩) ∧
+      (∀ r', find (pk.1 ++ r.name) = some r' →
+        lookup (cfgOf SI.units) (pk.1 ++ r.name) = .ok ⟨.exact r'.value, r'.dim⟩) := by
+  intro r hr pk hpk
+  have h1 := (List.all_eq_true.mp h) r hr
+  have h2 := (List.all_eq_true.mp h1) pk hpk
+  constructor
+  · intro hn
+    rw [hn] at h2
+    exact resolvesExactly_sound h2
+  · intro r' hs
+    rw [hs] at h2
+    exact resolvesExactly_sound h2
+
+/-- every spelling of every new unit resolves over the extended reference to `10^k` times what the unit means -/
+def checkExtNew : Bool :=
+  newUnits.all fun r => allPrefixes.all fun pk =>
+    resolvesExactly extCfg (pk.1 ++ r.name) ((10 : Rat) ^ pk.2 * r.value) r.dim
+
+theorem checkExtNew_sound (h : checkExtNew = true) :
+    ∀ r ∈ newUnits, ∀ pk ∈ allPrefixes,
+      lookup extCfg (pk.1 ++ r.name) = .ok ⟨.exact ((10 : Rat) ^ pk.2 * r.value), r.dim⟩ := by
+  intro r hr pk hpk
+  have h1 := (List.all_eq_true.mp h) r hr
+  exact resolvesExactly_sound ((List.all_eq_true.mp h1) pk hpk)
 
 /-- the live prefix table is the SI one -/
 def checkPrefixes (cfg : Cfg) : Bool :=
